@@ -175,13 +175,61 @@ def d3_offsets(ctx, bind_chunk, dl_call):
     if isinstance(sl, ast.Tuple) and len(sl.elts) == 2 and isinstance(sl.elts[0], ast.Subscript) and loc_name(sl.elts[0].slice) == loc_name(ic):
         s0name = loc_name(sl.elts[0].value)
         d = duc.strong_reaching(s0name, dl_call)
-        if len(d) == 1 and isinstance(d[0].value, ast.Call) and call_name(d[0].value) == "arange" and len(d[0].value.args) == 3:
+
+        def _grid_def(dd):
+            v_ = dd.value
+            if dd.unpack_index is not None and isinstance(v_, ast.Tuple) and dd.unpack_index < len(v_.elts):
+                v_ = v_.elts[dd.unpack_index]
+            if isinstance(v_, ast.Call) and call_name(v_) == "arange" and len(v_.args) == 3:
+                return const_value(v_.args[0]) == (True, 0) and loc_name(v_.args[2]) == "chunksize_samples"
+            # a leading part of the grid is still the grid: chunk i starts at i * chunksize_samples
+            if isinstance(v_, ast.Subscript) and loc_name(v_.value) == s0name and isinstance(v_.slice, ast.Slice) and v_.slice.lower is None and v_.slice.step is None:
+                return True
+            return False
+        grid_ok = bool(d) and all(x.kind in ("assign", "unpack") and x.value is not None and _grid_def(x) for x in d) and \
+            any(isinstance(x.value, ast.Call) and call_name(x.value) == "arange" for x in duc.defs if x.var == s0name and x.value is not None)
+        if False:
             a0, _, step = d[0].value.args
-            grid_ok = const_value(a0) == (True, 0) and loc_name(step) == "chunksize_samples"
         s1name = loc_name(sl.elts[1].value) if isinstance(sl.elts[1], ast.Subscript) else None
         grid_ok = grid_ok and s1name is not None and loc_name(sl.elts[1].slice) == loc_name(ic)
     ctx.check(grid_ok, fc, dl_call, f"sr_sl={src(sl) if sl else None}, i_chunk={src(ic) if ic else None}", "chunk i starts at i * chunksize_samples (arange grid) and is told so",
               "chunk bounds are not (s0_arr[i], s1_arr[i]) on the arange(0, ns, chunksize_samples) grid with i_chunk = i", key="grid")
+    # the chunks reach the end of the recording: on every path to the fan-out the LAST chunk end is ns
+    if isinstance(sl, ast.Tuple) and len(sl.elts) == 2 and isinstance(sl.elts[1], ast.Subscript):
+        s0n, s1n = loc_name(sl.elts[0].value), loc_name(sl.elts[1].value)
+
+        def run(stmts, state):
+            for st in stmts:
+                if any(x is dl_call for x in ast.walk(st)):
+                    return state, True
+                if isinstance(st, ast.If):
+                    a_, da = run(st.body, dict(state))
+                    b_, db = run(st.orelse, dict(state))
+                    if da or db:
+                        return (a_ if da else b_), True
+                    state = {k_: (a_.get(k_) and b_.get(k_)) for k_ in set(a_) | set(b_)}
+                    continue
+                if not isinstance(st, ast.Assign) or len(st.targets) != 1:
+                    continue
+                tg, val = st.targets[0], st.value
+                pairs = list(zip(tg.elts, val.elts)) if isinstance(tg, ast.Tuple) and isinstance(val, ast.Tuple) and len(tg.elts) == len(val.elts) else [(tg, val)]
+                for t_, v_ in pairs:
+                    if isinstance(t_, ast.Subscript) and loc_name(t_.value) == s1n and const_value(t_.slice) == (True, -1):
+                        state["last_is_ns"] = src(v_).endswith("ns")
+                    elif loc_name(t_) == s1n:
+                        vt = src(v_).replace(" ", "")
+                        if "minimum(" in vt and s0n in vt and vt.rstrip(")").endswith("ns"):
+                            state["last_is_ns"] = bool(state.get("full_grid"))
+                        else:
+                            state["last_is_ns"] = False      # s0 + C overruns, a prefix of the ends stops short
+                    elif loc_name(t_) == s0n:
+                        state["full_grid"] = isinstance(v_, ast.Call) and call_name(v_) == "arange"
+            return state, False
+        final, _ = run(fc.node.body, {"last_is_ns": False, "full_grid": False})
+        ctx.check(bool(final.get("last_is_ns")), fc, dl_call, f"last chunk end on the path to the fan-out: {'ns' if final.get('last_is_ns') else 'not established to be ns'}",
+                  "the last chunk ends at the end of the recording (no admissible spike falls after the last chunk)",
+                  "on some path to the fan-out the end of the LAST chunk is not set to ns (e.g. after dropping / folding a short trailing chunk the previous chunk keeps its own "
+                  "end): spikes between that end and ns belong to no chunk - their rows in waveforms.traces.npy stay zero while the table lists them", key="cover-end", name_free=True)
     # callee side
     for case, first in (("first", True), ("other", False)):
         def assume(t, first=first):
